@@ -63,7 +63,14 @@ def _asan_site(stderr):
     m = ASAN_RE.search(stderr)
     kind = m.group(1) if m else 'unknown'
     frames = []
-    for fm in FRAME_RE.finditer(stderr):
+    # only the faulting stack (first block of "#n" lines after the ERROR line)
+    start = m.end() if m else 0
+    blk = stderr[start:]
+    first = blk.find('    #0 ')
+    if first >= 0:
+        end = blk.find('\n\n', first)
+        blk = blk[first:end if end > 0 else len(blk)]
+    for fm in re.finditer(r'#(\d+) 0x[0-9a-f]+ in (\S+) ([^\s:]+)', blk):
         fn, path = fm.group(2), fm.group(3)
         if '/Source/' in path:
             frames.append('%s@%s' % (fn, os.path.basename(path)))
